@@ -62,6 +62,15 @@ func findPackages(repo, prop string) ([]string, error) {
 		b, _ := os.ReadFile(f)
 		texts[filepath.Dir(f)] = string(b)
 	}
+	// contract files for packages outside the repository (dependencies brought under contract): extspec/<import path>/
+	ext := extSpecDir()
+	filepath.Walk(ext, func(p string, info os.FileInfo, err error) error {
+		if err == nil && !info.IsDir() && info.Name() == contractFileName {
+			b, _ := os.ReadFile(p)
+			texts[filepath.Dir(p)] = string(b)
+		}
+		return nil
+	})
 	var add func(dir string)
 	add = func(dir string) {
 		if dirs[dir] {
@@ -70,7 +79,11 @@ func findPackages(repo, prop string) ([]string, error) {
 		dirs[dir] = true
 		for _, m := range loadLine.FindAllStringSubmatch(texts[dir], -1) {
 			for _, rel := range strings.Fields(m[1]) {
-				add(filepath.Join(repo, rel))
+				if strings.HasPrefix(rel, "./") || rel == "." {
+					add(filepath.Join(repo, rel))
+				} else {
+					add(filepath.Join(ext, rel))
+				}
 			}
 		}
 	}
@@ -85,6 +98,11 @@ func findPackages(repo, prop string) ([]string, error) {
 	}
 	var out []string
 	for d := range dirs {
+		if ext != "" && strings.HasPrefix(d, ext+string(filepath.Separator)) {
+			ip, _ := filepath.Rel(ext, d)
+			out = append(out, filepath.ToSlash(ip)) // import path of a dependency
+			continue
+		}
 		rel, err := filepath.Rel(repo, d)
 		if err != nil {
 			return nil, err
@@ -93,6 +111,18 @@ func findPackages(repo, prop string) ([]string, error) {
 	}
 	sort.Strings(out)
 	return out, nil
+}
+
+// extSpecDir: /verif/extspec (next to bin/), holding contract files for dependency packages.
+func extSpecDir() string {
+	if d := os.Getenv("GOVC_EXTSPEC"); d != "" {
+		return d
+	}
+	exe, err := os.Executable()
+	if err != nil {
+		return ""
+	}
+	return filepath.Join(filepath.Dir(filepath.Dir(exe)), "extspec")
 }
 
 type FuncReport struct {
@@ -151,6 +181,11 @@ func run(start time.Time) (code int) {
 		}
 	}
 	t0 := time.Now()
+	defer func() {
+		for _, d := range extScratchDirs {
+			os.RemoveAll(d)
+		}
+	}()
 	P, err := loadProgram(repo, patterns)
 	if err != nil {
 		fmt.Printf("ERROR property=%s cannot load: %v\n", prop, err)
